@@ -33,7 +33,7 @@ def lattice():
     def add(op, ident, **kw):
         c = {"op": op, "id": "%s/%s" % (op, ident)}
         for k, v in kw.items():
-            if isinstance(v, int) and not isinstance(v, bool) and k not in ("nagg", "np", "count", "level", "bits", "mbits", "mlen", "weight", "want", "got", "plen", "extra"):
+            if isinstance(v, int) and not isinstance(v, bool) and k not in ("nagg", "np", "count", "level", "bits", "mbits", "mlen", "weight", "want", "got", "plen", "extra", "pn", "sn"):
                 num(c, k, v)
             elif isinstance(v, list) and k == "m":
                 c[k] = [limbs(x) for x in v]
@@ -133,6 +133,11 @@ def lattice():
     for ln in [0, 2, 3, 4]:
         for op in ("agg_wrong_len", "unshard_wrong_len", "truncate_len", "decode_result_len"):
             add(op, "want=3,len=%d" % ln, want=3, got=ln)
+    for pleaf in (False, True):
+        for sleaf in (False, True):
+            for pn, sn in [(1, 1), (2, 2), (3, 3), (2, 1), (1, 2), (2, 3), (3, 1)]:
+                for op in ("poplar1_unshard", "poplar1_aggregate"):
+                    add(op, "param=%s/%d,shares=%s/%d" % ("leaf" if pleaf else "inner", pn, "leaf" if sleaf else "inner", sn), pleaf=pleaf, sleaf=sleaf, pn=pn, sn=sn)
     add("wrong_role_share", "helper_share_under_id0")
     add("wrong_role_share", "leader_share_under_id1")
     for k in [0, 1, 3]:
